@@ -427,6 +427,8 @@ def run_scenario(scenario, _unused):
             fn = jit.compile_forms if req.kind == "forms" else jit.compile_expressions
             handlers_before = list(root.handlers)
             stdout_before = sys.stdout
+            env_before = dict(os.environ)
+            os.environ.update(getattr(req, "jit_env", None) or {})
             try:
                 kw = dict(req.jit_kwargs)
                 kw.update(kw_override or {})
@@ -437,6 +439,10 @@ def run_scenario(scenario, _unused):
                 raised = "returned"
             except StopBuild:
                 raised = "StopBuild"
+            compile_env = {k: os.environ.get(k) for k in ("CC", "CFLAGS", "CPPFLAGS", "LDFLAGS", "LDSHARED")
+                           if os.environ.get(k) is not None}
+            os.environ.clear()
+            os.environ.update(env_before)
             # the stub's failure path leaves root handlers swapped on an unfixed tree; put
             # them back so that this artefact of the stub does not become history itself
             root.handlers = handlers_before
@@ -446,7 +452,8 @@ def run_scenario(scenario, _unused):
                 "jit", req.name,
                 {"module_name": seen.get("module_name"), "object_names": names, "raised": raised,
                  "np_print_exposed": bool(exposed.get(slot)),
-                 "compile_args": seen.get("kw", {}).get("extra_compile_args")},
+                 "compile_args": seen.get("kw", {}).get("extra_compile_args"),
+                 "compile_env": compile_env},
                 {"cdef": seen.get("cdef", ""), "source": seen.get("source", "")},
             )
         elif kind == "cli":
